@@ -201,6 +201,9 @@ func replayScript(v *Violation) string {
 			for _, e := range st.Env {
 				env += shQuoteEnv(e) + " "
 			}
+			if last && v.Inject != "" {
+				env += v.Inject + " "
+			}
 			b.WriteString(env + "$GOIT " + strings.Join(q, " "))
 			if last {
 				b.WriteString("; echo \"exit=$?\"\n")
